@@ -721,11 +721,11 @@ type loopHead struct {
 // modifiedBy runs body once in quiet mode from st and reports which variables / heap arrays / ghost vars change.
 func (u *Unit) modifiedBy(st *State, run func(s *State) []*State) (vars map[types.Object]bool, heaps map[string]bool, gvars map[string]bool, wm bool) {
 	u.quiet++
-	nBefore := len(u.order)
+	serial0 := u.allocSerial
 	probe := st.clone()
 	outs := run(probe)
 	u.quiet--
-	_ = nBefore
+	u.freshOnly = map[string]bool{}
 	vars, heaps, gvars = map[types.Object]bool{}, map[string]bool{}, map[string]bool{}
 	for _, o := range outs {
 		for k, v := range o.vars {
@@ -740,6 +740,22 @@ func (u *Unit) modifiedBy(st *State, run func(s *State) []*State) (vars map[type
 			}
 			if ov != v {
 				heaps[k] = true
+				// does the chain of stores from the head value to v only touch objects allocated in this iteration?
+				okFresh := true
+				cur := v
+				for steps := 0; cur != ov; steps++ {
+					ent, found := u.storeLog[cur]
+					if !found || steps > 10000 || u.allocN[ent[1]] <= serial0 {
+						okFresh = false
+						break
+					}
+					cur = ent[0]
+				}
+				if prev, seen := u.freshOnly[k]; seen {
+					u.freshOnly[k] = prev && okFresh
+				} else {
+					u.freshOnly[k] = okFresh
+				}
 			}
 		}
 		if o.epoch != st.epoch {
@@ -781,6 +797,7 @@ func sameVal(a, b *Val) bool {
 }
 
 func (u *Unit) havocLoopState(st *State, vars map[types.Object]bool, heaps map[string]bool, gvars map[string]bool, wm bool) {
+	wmHead := st.wm
 	if wm {
 		st.wm = u.bumpWM(st)
 	}
@@ -804,7 +821,15 @@ func (u *Unit) havocLoopState(st *State, vars map[types.Object]bool, heaps map[s
 		}
 		sort.Strings(hs)
 		for _, h := range hs {
+			before := u.heapGet(st, h, u.eng.heapSorts[h])
 			u.heapHavoc(st, h)
+			if u.freshOnly[h] {
+				// inferred frame: the loop body writes this array only at objects it allocates itself,
+				// so every object that existed at the loop head keeps its value.
+				bvCounter++
+				r := fmt.Sprintf("lf!%d", bvCounter)
+				st.assumeFact(fmt.Sprintf("(forall ((%s Int)) (! (=> (<= %s %s) (= (select %s %s) (select %s %s))) :pattern ((select %s %s))))", r, r, wmHead, st.heap[h], r, before, r, st.heap[h], r))
+			}
 		}
 	}
 	var gs []string
